@@ -347,6 +347,35 @@ func TestC12(t *testing.T) {
 		}
 	}
 
+	// ---- destination classes: only an envelope whose Destination IS the server's name is for it - not the empty string, a
+	// blank, another case, the name with a suffix / a prefix of it / with blanks or a NUL around it, a wildcard; as unary
+	// request, stream opener, message / half-close / reset for a stream (unknown, and one that is open), then the probe
+	for _, dst := range []string{"", " ", "DST", "Dst", "dstx", "ds", "d", "dst ", " dst", "dst\x00", "dst/", "*"} {
+		for _, shape := range []string{"unary", "open", "body", "close", "reset"} {
+			for _, behind := range []bool{false, true} {
+				var frames []*FrameSpec
+				if behind {
+					frames = append(frames, &FrameSpec{Id: 1, Hdr: "ok:0", Method: mBidi, Src: "src", Dst: "dst"})
+				}
+				f := &FrameSpec{Id: 1, Hdr: "ok:0", Method: mBidi, Src: "src", Dst: dst}
+				switch shape {
+				case "unary":
+					f = &FrameSpec{Id: 5, Hdr: "ok:0", Method: mUnary, Src: "src", Dst: dst, Body: i64(860)}
+				case "open":
+					f.Id = 7
+				case "body":
+					f.Body = i64(861)
+				case "close":
+					f.Status, f.Trl = &[2]int64{0, 0}, "ok:0"
+				case "reset":
+					f.Rst = "rst"
+				}
+				frames = append(frames, f, svProbe(914))
+				run("dstclass", frames, []string{"dst-class", "shape:" + shape, fmt.Sprintf("behind=%v", behind), fmt.Sprintf("dstlen=%d", len(dst))})
+			}
+		}
+	}
+
 	// ---- odd metadata KEYS: empty, pseudo-headers, "-bin" alone, upper case, blanks, control characters, non-ASCII, invalid
 	// UTF-8, reserved names, 64 KiB; alone and next to ordinary metadata; on a unary request and on a stream opener
 	for n := range svOddKeys {
